@@ -253,7 +253,10 @@ var argOps = []argOp{
 			for a := range ips {
 				for m := range ips {
 					for g := range ips {
-						e.run(s, func(u uhppote.IUHPPOTE) ([]any, error) { v, err := u.SetAddress(s, ips[a], ips[m], ips[g]); return res(err, v) },
+						e.run(s, func(u uhppote.IUHPPOTE) ([]any, error) {
+							v, err := u.SetAddress(s, ips[a], ips[m], ips[g])
+							return res(err, v)
+						},
 							func() string {
 								return fmt.Sprintf("serial=%d address=%s mask=%s gateway=%s", s, ipNames[a], ipNames[m], ipNames[g])
 							})
@@ -284,7 +287,10 @@ var argOps = []argOp{
 	{"GetDoorControlState", 0x82, func(e *argEnum, _ bool) {
 		for _, s := range serials {
 			for door := 0; door < 256; door++ {
-				e.run(s, func(u uhppote.IUHPPOTE) ([]any, error) { v, err := u.GetDoorControlState(s, byte(door)); return res(err, v) },
+				e.run(s, func(u uhppote.IUHPPOTE) ([]any, error) {
+					v, err := u.GetDoorControlState(s, byte(door))
+					return res(err, v)
+				},
 					func() string { return fmt.Sprintf("serial=%d door=%d", s, door) })
 			}
 		}
@@ -400,7 +406,9 @@ var argOps = []argOp{
 							p.Segments[k] = types.Segment{Start: hh[a], End: hh[b]}
 							v, err := u.SetTimeProfile(s, p)
 							return res(err, v)
-						}, func() string { return fmt.Sprintf("serial=%d segment %d = %s-%s", s, k, hh[a].String(), hh[b].String()) })
+						}, func() string {
+							return fmt.Sprintf("serial=%d segment %d = %s-%s", s, k, hh[a].String(), hh[b].String())
+						})
 					}
 				}
 			}
@@ -483,7 +491,10 @@ var argOps = []argOp{
 		for _, s := range serials {
 			for _, door := range []uint8{0, 1, 4, 5, 255} {
 				for _, l := range lists {
-					e.run(s, func(u uhppote.IUHPPOTE) ([]any, error) { v, err := u.SetDoorPasscodes(s, door, l...); return res(err, v) },
+					e.run(s, func(u uhppote.IUHPPOTE) ([]any, error) {
+						v, err := u.SetDoorPasscodes(s, door, l...)
+						return res(err, v)
+					},
 						func() string { return fmt.Sprintf("serial=%d door=%d passcodes=%v(nil:%v)", s, door, l, l == nil) })
 				}
 			}
@@ -500,7 +511,10 @@ var argOps = []argOp{
 	{"SetInterlock", 0xa2, func(e *argEnum, _ bool) {
 		for _, s := range serials {
 			for il := 0; il < 256; il++ {
-				e.run(s, func(u uhppote.IUHPPOTE) ([]any, error) { v, err := u.SetInterlock(s, types.Interlock(il)); return res(err, v) },
+				e.run(s, func(u uhppote.IUHPPOTE) ([]any, error) {
+					v, err := u.SetInterlock(s, types.Interlock(il))
+					return res(err, v)
+				},
 					func() string { return fmt.Sprintf("serial=%d interlock=%d", s, il) })
 			}
 		}
@@ -509,7 +523,10 @@ var argOps = []argOp{
 		readers := readersAlphabet()
 		for _, s := range serials {
 			for i := range readers {
-				e.run(s, func(u uhppote.IUHPPOTE) ([]any, error) { v, err := u.ActivateKeypads(s, readers[i]); return res(err, v) },
+				e.run(s, func(u uhppote.IUHPPOTE) ([]any, error) {
+					v, err := u.ActivateKeypads(s, readers[i])
+					return res(err, v)
+				},
 					func() string { return fmt.Sprintf("serial=%d readers=%s", s, mapNames[i]) })
 			}
 		}
